@@ -9,8 +9,6 @@ HERE = os.path.dirname(os.path.dirname(os.path.abspath(__file__)))
 sys.path.insert(0, HERE)
 
 NOT_APPLICABLE = {
-    'C24': 'sequential-file round trip is a property of values pushed through the input_entry character state machine '
-           'and host files; no clause is visible in code shape; see DESIGN.md section 6',
     'C32': 'PAINT fills exactly the region: a connectivity property of runtime bitmaps; the only-inside-the-viewport '
            'half is decided under C30; see DESIGN.md section 6',
     'C43': 'session API value round trips are numeric/codepage value computations; out of reach of static analysis; '
